@@ -17,6 +17,7 @@ import PM.StructEdit
 import Proofs.LevelReplace
 import Proofs.JoinSuccess
 import Proofs.Structure
+import Proofs.FlatInsertCore
 namespace PM
 
 /-! ### the builder when nothing is split -/
@@ -195,7 +196,8 @@ theorem insertAt_empty (S : Schema) (mid : List Node) :
     Slice.insertAt S ⟨[], 0, 0⟩ 0 mid = .ok (some ⟨mid, 0, 0⟩) := by
   have : fappend (fappend [] mid) [] = mid := by
     cases mid <;> simp [fappend]
-  simp [Slice.insertAt, insertInto, flatInsert, fcut, this]
+  rw [insertAt_of_le (by simp [Slice.size])]
+  simp [Slice.insertAtIn, insertInto, flatInsert, fcut, this]
 
 /-! ### an approved lift that splits nothing applies -/
 
